@@ -137,3 +137,78 @@ def rotation_matrix(axis, angle):
     axis = np.asarray(axis, dtype=float); axis = axis / np.linalg.norm(axis)
     K = np.array([[0, -axis[2], axis[1]], [axis[2], 0, -axis[0]], [-axis[1], axis[0], 0]])
     return np.eye(3) + math.sin(angle) * K + (1 - math.cos(angle)) * (K @ K)
+
+
+# ---------------------------------------------------------------- general cascades (n-body)
+def gen_tree_events(tree, masses, M0, n, seed, res_mass_range=None):
+    """tree: nested tuples of final names, e.g. (("B","C"),("D","E")) or ((("B","C"),"D"),"E").
+    Sequential two-body decays with uniformly drawn intermediate masses (not LIPS-flat), double precision."""
+    rs = np.random.RandomState(seed % (2 ** 32))
+
+    def leaves(t):
+        return [t] if isinstance(t, str) else sum((leaves(x) for x in t), [])
+
+    def msum(t):
+        return sum(masses[x] for x in leaves(t))
+
+    def direction():
+        c = rs.uniform(-1, 1); ph = rs.uniform(-math.pi, math.pi); s = math.sqrt(1 - c * c)
+        return np.array([s * math.cos(ph), s * math.sin(ph), c])
+
+    def decay(t, m, out):
+        """decay node t of mass m at rest; returns dict name -> p4 in this rest frame"""
+        if isinstance(t, str):
+            out[t] = np.array([m, 0.0, 0.0, 0.0])
+            return
+        a, b = t
+        lo_a, lo_b = msum(a), msum(b)
+        free = m - lo_a - lo_b
+        # share the available energy
+        if isinstance(a, str) and isinstance(b, str):
+            ma, mb = masses[a], masses[b]
+        elif isinstance(a, str):
+            ma = masses[a]; mb = lo_b + rs.uniform(0.05, 0.95) * free
+        elif isinstance(b, str):
+            mb = masses[b]; ma = lo_a + rs.uniform(0.05, 0.95) * free
+        else:
+            u = sorted([rs.uniform(0.05, 0.95), rs.uniform(0.05, 0.95)])
+            ma = lo_a + u[0] * free; mb = lo_b + (u[1] - u[0]) * free
+        q = _relp(m, ma, mb); nq = direction()
+        pa = np.concatenate([[math.sqrt(ma * ma + q * q)], q * nq]); pb = np.concatenate([[math.sqrt(mb * mb + q * q)], -q * nq])
+        for sub, p, msub in ((a, pa, ma), (b, pb, mb)):
+            tmp = {}
+            decay(sub, msub, tmp)
+            beta = p[1:] / p[0]
+            for k, v in tmp.items():
+                out[k] = _boost(v, beta)
+    names = leaves(tree)
+    res = {k: [] for k in names}
+    for _ in range(n):
+        out = {}
+        decay(tree, M0, out)
+        for k in names:
+            res[k].append(out[k])
+    return {k: np.array(v) for k, v in res.items()}
+
+
+def four_body_config(M0, mf, spins, chains, data_opts=None):
+    """mf: masses of B,C,D,E; spins: name -> (J,P) incl. 'A'; chains: list of dicts describing
+    A -> X + Y topologies:  {"kind":"22","R1":(name,J,P,m,w,("B","C")),"R2":(name,J,P,m,w,("D","E"))}
+                          or {"kind":"31","R":(name,J,P,m,w),"S":(name,J,P,m,w,("B","C")),"third":"D","fourth":"E"}"""
+    finals = ["B", "C", "D", "E"]
+    decay = {"A": []}
+    particle = {"$top": {"A": {"J": spins["A"][0], "P": spins["A"][1], "mass": M0}},
+                "$finals": {k: {"J": spins[k][0], "P": spins[k][1], "mass": mf[k]} for k in finals}}
+    for ch in chains:
+        if ch["kind"] == "22":
+            n1, J1, P1, m1, w1, d1 = ch["R1"]; n2, J2, P2, m2, w2, d2 = ch["R2"]
+            decay["A"].append([n1, n2]); decay[n1] = list(d1); decay[n2] = list(d2)
+            particle[n1] = {"J": J1, "P": P1, "mass": m1, "width": w1}; particle[n2] = {"J": J2, "P": P2, "mass": m2, "width": w2}
+        else:
+            nR, JR, PR, mR, wR = ch["R"]; nS, JS, PS, mS, wS, dS = ch["S"]
+            decay["A"].append([nR, ch["fourth"]]); decay[nR] = [nS, ch["third"]]; decay[nS] = list(dS)
+            particle[nR] = {"J": JR, "P": PR, "mass": mR, "width": wR}; particle[nS] = {"J": JS, "P": PS, "mass": mS, "width": wS}
+    data = {"dat_order": finals}
+    if data_opts:
+        data.update(data_opts)
+    return {"data": data, "decay": decay, "particle": particle}
